@@ -40,7 +40,7 @@ Failed(r) ==
          \cup (IF RLe(FromPair(r.z), Zero) => RLe(RAbs(FromPair(r.amp)), One) THEN {} ELSE {"C06_growth"})
     [] r.kind = "grow" -> IF r.grow <= TolRoundoff THEN {} ELSE {"C06_growth"}
     [] r.kind = "jac"  -> IF r.jacerr <= TolSolver THEN {} ELSE {"C06_jacobian"}
-    [] OTHER -> {"C06_unknown_record"}
+    [] OTHER -> {"unknown_record"}
 
 Init == i = 0 /\ bad = <<>>
 Step == /\ i < Len(Recs) /\ i' = i + 1
